@@ -221,6 +221,16 @@ def persistence(repo, res):
     fn = arr.func("loadtxt")
     calls = [norm(c) for c in ast.walk(fn.node) if isinstance(c, ast.Call)]
     res.check("unyt_array(arr, unit)" in calls, "reader:loadtxt", fn.where(), "loadtxt attaches the unit text of each column", rid=r4)
+    # no process-global memo between the stored text and the unit rebuilt from it
+    from rules import memo_rules
+
+    io = {"unyt_array.__setstate__", "unyt_array.__reduce__", "unyt_array.from_hdf5", "unyt_array.write_hdf5", "loadtxt", "savetxt", "Unit.__new__", "parse_unyt_expr", "Unit.__str__", "Unit.__repr__"}
+    n_m = 0
+    for key, ok, where, msg, exp, found in memo_rules.calltime_globals(repo, only_functions=io):
+        n_m += 1
+        res.check(ok, "io:" + key, where, msg + " - the text read back then denotes a unit other than the one written", exp, found, rid=r4)
+    if not n_m:
+        res.ok("io-keeps-no-global-state", r4)
 
 
 MUTANTS = [
